@@ -802,7 +802,16 @@ def conc_ops(rng, tier):
     d2 = G._mk_data(prog, rng, 900)
     s1 = [{"a": "sha256", "d": d1}]
     s2 = [{"a": "sha256", "d": d2}]
+    # index records longer than any buffer a writer might put in front of the bucket file (8 KiB,
+    # 64 KiB): a record is ONE append whatever its length
+    k3 = G.add_key(prog, "conc-long-key-%d-" % rng.randrange(10 ** 6) + "L" * 8300)
+    bigmeta = {"big": "M" * 9000, "n": 1}
+    hugemeta = {"big": "M" * 70000, "n": 2}
     ops = {
+        "w11m": {"op": "write", "key": k1, "data": d1, "algo": "sha256", "how": "streamed", "meta": bigmeta},
+        "w11M": {"op": "write", "key": k1, "data": d1, "algo": "sha256", "how": "streamed", "meta": hugemeta},
+        "w3L": {"op": "write", "key": k3, "data": d1, "algo": "sha256", "how": "oneshot"},
+        "x3L": {"op": "remove", "key": k3},
         "w11": {"op": "write", "key": k1, "data": d1, "algo": "sha256", "how": "oneshot"},
         "w12": {"op": "write", "key": k1, "data": d2, "algo": "sha256", "how": "oneshot"},
         "w21": {"op": "write", "key": k2, "data": d1, "algo": "sha256", "how": "oneshot"},
@@ -837,7 +846,8 @@ def conc_scenarios(rng, tier, lanes=("S", "Aa", "Ta")):
     if q:
         must = [("w11", "w12"), ("w12", "w12s"), ("w11", "w21"), ("w11", "wh1"), ("w12", "x1"), ("w12", "r1"),
                 ("w12", "m1"), ("w12", "ls"), ("x1", "r1"), ("xh1", "r1"), ("xh1", "w11"), ("w11", "w11"),
-                ("x1", "x1"), ("x1", "ls"), ("rh1", "xh1"), ("e1", "w11"), ("w12s", "ls"), ("w12s", "r1")]
+                ("x1", "x1"), ("x1", "ls"), ("rh1", "xh1"), ("e1", "w11"), ("w12s", "ls"), ("w12s", "r1"),
+                ("w11m", "w12"), ("w11M", "x1"), ("w11M", "w12"), ("w3L", "w3L"), ("w3L", "x3L")]
         extra = rng.sample([p for p in pairs if p not in must], 8)
         pairs = must + extra
     out = []
